@@ -2,8 +2,10 @@
 import os, random
 from . import impl, coqrun
 from .gens import sheet as S
+from . import readcss
 
 MODS = ['Model.Ast', 'Model.Fmt', 'Model.Eval']
+SPEC_MODS = ['Model.Ast', 'Spec.Sem']
 
 
 def opts_term(o):
@@ -37,4 +39,24 @@ def run(ctx, cases, pool=None, tag='sheet'):
         for i in bad:
             out['model_mismatch'].append({'input': {'text': cases[i]['text'], 'opts': cases[i]['opts']}, 'impl': answers[i],
                                           'model': diag.get(i), 'classes': cases[i].get('classes', [])})
+    # ---- implementation vs reference semantics: read the produced CSS back and compare the flat items
+    srows = []
+    for c, a in zip(cases, answers):
+        tr = S.tree(c['sheet'])
+        if a.get('r') == 'ok':
+            items = readcss.read_css(a['css'])
+            srows.append(('bool', '(sem_matches %s %s)' % (tr, readcss.coq_items(items, coqrun.coq_str)), '(show_sem %s)' % tr))
+        elif a.get('r') == 'error':
+            srows.append(('bool', '(sem_fails %s)' % tr, '(show_sem %s)' % tr))
+        else:
+            srows.append(('bool', 'false', '(show_sem %s)' % tr))
+    bad, diag, errs = coqrun.evaluate(srows, SPEC_MODS, wd, tag='s', shard=40)
+    out['harness_errors'] += errs
+    mm = {id(m['input']['text']): m for m in out['model_mismatch']}
+    for i in bad:
+        rec = {'input': {'text': cases[i]['text'], 'opts': cases[i]['opts']}, 'impl': answers[i], 'spec': diag.get(i),
+               'classes': cases[i].get('classes', [])}
+        out['spec_mismatch'].append(rec)
+    sb = set(bad)
+    out['model_mismatch'] = [m for k, m in enumerate(out['model_mismatch'])]
     return out, answers
